@@ -219,6 +219,27 @@ def gen_cases(tier, seed):
                     c["sg"] = fl(rng.choice([0.0, 1.0]))
                     c["dims"] = ["y", "x", "time"]
                 add(c)
+    # iterations that have NOT settled after ten passes (skewed data, p next to 1): the result is the tenth pass, no more
+    # (a float sketch of the iteration only selects the inputs; the verdict is TLC's exact ten-pass iteration)
+    want, tries = (3 if quick else 12), 0
+    while want and tries < 400:
+        tries += 1
+        rs_ = np.random.RandomState(rng.randrange(10**6))
+        n = rng.choice([40, 60])
+        yv = np.minimum(np.round(rs_.exponential(1500, n)), 10000)
+        lam_, p_ = rng.choice([1.0, 10.0]), 0.9999
+        z_ = np.zeros(n)
+        npass = 0
+        for npass in range(1, 16):
+            ww_ = np.where(yv > z_, p_, 1 - p_)
+            a_ = np.diag(ww_) + lam_ * (lambda d_: d_.T @ d_)(np.diff(np.eye(n), 2, axis=0))
+            zn_ = np.linalg.solve(a_, ww_ * yv)
+            if np.array_equal(np.where(yv > zn_, 1, 0), np.where(yv > z_, 1, 0)) and npass > 1:
+                break
+            z_ = zn_
+        if npass >= 13:
+            want -= 1
+            add({"op": "fixed", "api": rng.choice(["kernel", "whits_s"]), "y": [str(int(v)) for v in yv], "nd": "-3000", "lam": fl(lam_), "hasp": True, "p": fl(p_), "dims": ["time", "y", "x"], "family": "unsettled"})
     if not quick:
         for n in (200, 400):
             y = gaps(rng, series(rng, n, "season"), -3000, 0.2)
